@@ -132,3 +132,117 @@ def random_real_system(rng, with_contacts=True, with_actuators=True, with_maxwel
         ordered.append(c)
     system.add(*ordered)
     return system, desc
+
+
+# ---------------------------------------------------------------------------------------------------
+# small, dynamically consistent systems for solver runs
+def _opts(**kw):
+    from cardillo.solver import SolverOptions
+
+    return SolverOptions(**kw)
+
+
+def sys_pendulum(t0=0.0, omega0=0.0, motor=False, spring=None, phi0=0.0):
+    """Rigid bar on a revolute joint (axis z) at the origin, gravity in -y.  parts: g, S (+tau, +c)"""
+    from cardillo import System
+    from cardillo.discrete import RigidBody
+    from cardillo.constraints import Revolute
+    from cardillo.forces import Force
+    from cardillo.actuators import Motor
+    from cardillo.force_laws import KelvinVoigtElement
+
+    system = System(t0=t0)
+    L = 1.0
+    c, s = math.cos(phi0), math.sin(phi0)
+    r_OC = 0.5 * L * np.array([c, s, 0.0])
+    P = np.array([math.cos(phi0 / 2), 0.0, 0.0, math.sin(phi0 / 2)])
+    v = omega0 * 0.5 * L * np.array([-s, c, 0.0])
+    rb = RigidBody(1.0, np.diag([0.01, 1.0 / 12, 1.0 / 12]), q0=np.concatenate([r_OC, P]), u0=np.concatenate([v, [0, 0, omega0]]), name="bar")
+    joint = Revolute(system.origin, rb, axis=2, r_OJ0=np.zeros(3), A_IJ0=np.eye(3), name="hinge")
+    grav = Force(np.array([0.0, -9.81, 0.0]), rb, name="gravity")
+    system.add(rb, joint, grav)
+    if motor:
+        m = Motor(joint, lambda t: 0.5)
+        m.name = "motor"
+        system.add(m)
+    if spring is not None:
+        kv = KelvinVoigtElement(joint, 2.0, 0.1, l_ref=0.0, compliance_form=(spring == "compliance"), name="kv")
+        system.add(kv)
+    system.assemble()
+    return system
+
+
+def sys_mass_spring(t0=0.0, compliance=True, v0=0.0):
+    """Point mass on a spring to the origin, gravity in -z.  parts: c (compliance form) or none"""
+    from cardillo import System
+    from cardillo.discrete import PointMass
+    from cardillo.interactions import TwoPointInteraction
+    from cardillo.force_laws import Spring
+    from cardillo.forces import Force
+
+    system = System(t0=t0)
+    pm = PointMass(1.0, q0=np.array([0.0, 0.0, -1.0]), u0=np.array([v0, 0.0, 0.0]), name="pm")
+    tpi = TwoPointInteraction(system.origin, pm, name="tpi")
+    sp = Spring(tpi, 50.0, l_ref=0.8, compliance_form=compliance, name="spring")
+    grav = Force(np.array([0.0, 0.0, -9.81]), pm, name="gravity")
+    system.add(pm, tpi, sp, grav)
+    system.assemble()
+    return system
+
+
+def sys_ball_on_plane(t0=0.0, mu=0.3, gap=0.0, vx=1.0, vz=0.0, e_N=0.0, rigid=True, r=0.1):
+    """Ball resting on / falling onto the plane z = 0 (origin frame), gravity in -z.  parts: N, F (mu>0), S (rigid)"""
+    from cardillo import System
+    from cardillo.discrete import RigidBody, PointMass
+    from cardillo.contacts import Sphere2Plane
+    from cardillo.forces import Force
+
+    system = System(t0=t0)
+    if rigid:
+        q0 = np.array([0.0, 0.0, r + gap, 1.0, 0.0, 0.0, 0.0])
+        u0 = np.array([vx, 0.0, vz, 0.0, 0.0, 0.0])
+        body = RigidBody(1.0, 0.4 * r * r * np.eye(3), q0=q0, u0=u0, name="ball")
+    else:
+        body = PointMass(1.0, q0=np.array([0.0, 0.0, r + gap]), u0=np.array([vx, 0.0, vz]), name="ball")
+    contact = Sphere2Plane(system.origin, body, mu=mu, r=r, e_N=e_N, e_F=0.0, name="contact")
+    grav = Force(np.array([0.0, 0.0, -9.81]), body, name="gravity")
+    system.add(body, contact, grav)
+    system.assemble()
+    return system
+
+
+def sys_static_spring(force_form=True):
+    """Static problem for the Newton solver: bar on a revolute joint with a torsional spring, dead load at the
+    centre ramped with t in [0, 1].  parts: g, S (+c in compliance form)"""
+    from cardillo import System
+    from cardillo.discrete import RigidBody
+    from cardillo.constraints import Revolute
+    from cardillo.force_laws import Spring
+    from cardillo.forces import Force
+
+    system = System()
+    rb = RigidBody(1.0, np.diag([0.01, 1.0 / 12, 1.0 / 12]), q0=np.array([0.5, 0, 0, 1.0, 0, 0, 0]), name="bar")
+    joint = Revolute(system.origin, rb, axis=2, r_OJ0=np.zeros(3), A_IJ0=np.eye(3), name="hinge")
+    sp = Spring(joint, 20.0, l_ref=0.0, compliance_form=not force_form, name="torsion")
+    load = Force(lambda t: t * np.array([0.0, -9.81, 0.0]), rb, name="load")
+    system.add(rb, joint, sp, load)
+    system.assemble()
+    return system
+
+
+def sys_blowup(t0=0.0, tc=0.105):
+    """Point mass with a force that stops being finite at t = tc: adaptive integrators give up there"""
+    from cardillo import System
+    from cardillo.discrete import PointMass
+    from cardillo.forces import Force
+
+    system = System(t0=t0)
+    pm = PointMass(1.0, q0=np.zeros(3), u0=np.zeros(3), name="pm")
+
+    def f(t):
+        x = 1.0 - (t - t0) / (tc - t0)
+        return np.array([np.sqrt(x) if x >= 0 else np.nan, 0.0, 0.0])
+
+    system.add(pm, Force(f, pm, name="singular"))
+    system.assemble()
+    return system
